@@ -26,7 +26,7 @@ RULE = ('cases = default sets (plain, renamed one-to-one, one deprecated name sp
         'files defining both a deprecated name and a successor, or referencing a deprecated name via rule:) x tool '
         '(upgrade YAML/JSON in and out; convert JSON->YAML; policy-generator and list-redundant with a main file plus '
         'directory overrides, each name in at most one file, file rules spelled as textual variants of the default, as near misses (one operand of the top-level and/or dropped or '
-        'added), as always-allow ("", "@", []) or as different rules, no override under a deprecated name; in 40 % of these cases the files are rewritten after the first load and the tools then run on the living enforcer; namespaces hand their defaults over as a list or as a one-shot iterable). Stratum "repeat" (same input again): ONE input policy text (YAML as dumped, YAML one rule per line, or JSON) is handed to several tools and enforcers back to back in one process - upgrade under two different default sets in both orders (renaming set, the same names all ordinary, the old names renamed to other successors, a fresh renaming set), convert then upgrade, generator / list-redundant / a fresh enforcer on the INPUT file right after a tool ran on it; the decisions of the input under each default set are measured first thing in the case, before any tool has seen the text, and every later output (and every later enforcer on the untouched input) is compared with them. Stratum "long" (rule texts and names far longer than one line of a generated file): default sets (plain, renamed one-to-one, changed default under the same name, a shared rule: target) whose check strings are or/and chains of 60-450 characters over role:a..d padded with clauses that are neutral for the 16 role subsets (blanks at many positions), single tokens of 80-300 characters without any blank (some with quotes, backslashes, non-ASCII), long list-of-lists rules, and names of 6-200 characters (a few with blanks); file rules that equal the registered default textually or as a textual variant, near misses, different long rules, overrides and aliases under the deprecated name, unknown names; convert (JSON in), upgrade (JSON / YAML as dumped / YAML one rule per line in, YAML / JSON out), generator + list-redundant (main file + policy.d in the three input styles); extra credentials hold the long role names so that a mangled long leaf changes a decision. Decisions compared under all 16 subsets of 4 roles and 2 '
+        'added), as always-allow ("", "@", []) or as different rules, no override under a deprecated name; in 40 % of these cases the files are rewritten after the first load and the tools then run on the living enforcer; namespaces hand their defaults over as a list or as a one-shot iterable). Stratum "repeat" (same input again): ONE input policy text (YAML as dumped, YAML one rule per line, or JSON) is handed to several tools and enforcers back to back in one process - upgrade under two different default sets in both orders (renaming set, the same names all ordinary, the old names renamed to other successors, a fresh renaming set), convert then upgrade, generator / list-redundant / a fresh enforcer on the INPUT file right after a tool ran on it; the decisions of the input under each default set are measured first thing in the case, before any tool has seen the text, and every later output (and every later enforcer on the untouched input) is compared with them. Stratum "long" (rule texts and names far longer than one line of a generated file): default sets (plain, renamed one-to-one, changed default under the same name, a shared rule: target) whose check strings are or/and chains of 60-450 characters over role:a..d padded with clauses that are neutral for the 16 role subsets (blanks at many positions), single tokens of 80-300 characters without any blank (some with quotes, backslashes, non-ASCII), long list-of-lists rules, and names of 6-200 characters (a few with blanks); file rules that equal the registered default textually or as a textual variant, near misses, different long rules, overrides and aliases under the deprecated name, unknown names; convert (JSON in), upgrade (JSON / YAML as dumped / YAML one rule per line in, YAML / JSON out), generator + list-redundant (main file + policy.d in the three input styles); extra credentials hold the long role names so that a mangled long leaf changes a decision. Stratum "place" (where the output goes, relative to what the tool reads): upgrade, convert and policy-generator run with --output-file naming a new file, an EXISTING file that holds another, longer policy which decides otherwise (must be replaced, not appended to or merged), the SAME file as the input (in place: the same path, a path with . and .. segments, a path relative to the working directory, a symbolic link to the input, the input given as a link to the output, a hard link; for the generator the main policy file or the policy.d file of the enforcer it merges from, loaded already or not), a new file inside the policy directory the generator read from (sorted before or after the other file), or stdout; the decisions of the input are measured BEFORE the run, and the produced file (beside the defaults; generator also on its own), the configuration as it stands after the run, and - where the output is another file - the untouched input are compared with them. Decisions compared under all 16 subsets of 4 roles and 2 '
         'targets. Non-trivial = the file overrides at least one registered or deprecated name; distinct = distinct (defaults, files, tool).')
 ASSUMPTIONS = ['default configuration (enforce_new_defaults and enforce_scope at their defaults), no scope types: "request scope matching"',
                'redundant rules are read from list-redundant output lines of the form "name": ... (pinned by the repository\'s ListRedundantTestCase)',
@@ -38,7 +38,8 @@ PLAN = {'quick': dict(shards=8, wall=150), 'thorough': dict(shards=16, wall=500)
 MIN = {'evaluations': 400, 'upgrade_runs': 100, 'convert_runs': 100, 'generator_runs': 100, 'redundant_reports': 30, 'tools_on_living_enforcer': 30,
        'decisions_compared': 20000, 'same_input_repeats': 30, 'same_input_steps': 80, 'same_input_decisions_compared': 10000,
        'long_text_cases': 40, 'long_text_cases.convert': 10, 'long_text_cases.upgrade': 8, 'long_text_cases.generator': 10,
-       'long_text_equal_default_rules': 40, 'long_text_decisions_compared': 25000}
+       'long_text_equal_default_rules': 40, 'long_text_decisions_compared': 25000,
+       'output_place_cases': 30, 'output_place_cases.in-place': 20, 'output_place_cases.over-existing-file': 4, 'output_place_decisions_compared': 35000}
 ANCHORS = ['oslo_policy.generator:_convert_policy_json_to_yaml', 'oslo_policy.generator:_upgrade_policies',
            'oslo_policy.generator:_generate_policy', 'oslo_policy.generator:_list_redundant',
            'oslo_policy.generator:upgrade_policy', 'oslo_policy.generator:convert_policy_json_to_yaml',
@@ -299,6 +300,8 @@ def check_case(ctx, case):
         return check_repeat(ctx, case)
     if case['tool'] == 'long':
         return check_long(ctx, case)
+    if case['tool'] == 'place':
+        return check_place(ctx, case)
     spec = case['defaults']
     ds = build_defaults(policy, spec)
     regnames = [d.name for d in ds]
@@ -1013,6 +1016,192 @@ def check_long(ctx, case):
         tree.cleanup()
 
 
+# ---- stratum 'place': where the tool's output goes, relative to what it reads ------------------------------------------
+# (the other strata always write to a fresh file or to stdout; operators upgrade / convert / regenerate IN PLACE)
+
+PLACE_SAME = ['same', 'same', 'same-dotted', 'same-relative', 'same-symlink-out', 'same-symlink-in', 'same-hardlink']
+PLACE_WHERE = {'upgrade': ['new', 'stdout', 'existing', 'existing'] + PLACE_SAME,
+               'convert': ['new', 'stdout', 'existing', 'existing'] + PLACE_SAME,
+               'generator': ['new', 'existing', 'existing', 'in-dir', 'in-dir', 'same-dir-file', 'same-dir-file'] + PLACE_SAME}
+
+
+def place_class(where):
+    if where.startswith('same'):
+        return 'in-place'
+    return {'existing': 'over-existing-file', 'in-dir': 'into-policy-dir'}.get(where)
+
+
+def gen_place_case(rnd):
+    spec = gen_defaults(rnd)
+    op = rnd.choice(['upgrade', 'upgrade', 'convert', 'generator', 'generator'])
+    case = dict(tool='place', op=op, defaults=spec, where=rnd.choice(PLACE_WHERE[op]),
+                ns_obj=rnd.choice(['list', 'list', 'chain', 'generator']))
+    if op == 'upgrade':
+        case.update(file=gen_file(rnd, spec), in_fmt=rnd.choice(['json', 'yaml', 'yaml-lines']), out_fmt=rnd.choice(['yaml', 'yaml', 'json']),
+                    in_rel=rnd.choice(['policy.yaml', 'policy.yaml', 'pd/over.yaml']))
+    elif op == 'convert':
+        case.update(file=gen_file(rnd, spec), in_fmt='json', in_rel=rnd.choice(['policy.json', 'policy.json', 'pd/over.json']))
+    else:
+        f = gen_file(rnd, spec, allow_deprecated=False, variants=0.5)
+        case.update(file=f, in_fmt=rnd.choice(['json', 'yaml', 'yaml-lines']), in_rel='policy.yaml', in_main=[k for k in f if rnd.random() < 0.6],
+                    out_name=rnd.choice(['00-merged.yaml', 'zz-merged.yaml']), living=rnd.random() < 0.5)
+    # what an EXISTING output file holds before the run: another policy, longer than any output, that decides otherwise
+    case['other'] = dict(fmt=rnd.choice(['yaml-lines', 'yaml-lines', 'json']), pad=rnd.randint(40, 120),
+                         rules=[rnd.choice(['!', '@', 'role:d', 'not role:a']) for _ in range(12)])
+    return case
+
+
+def other_content(case, names):
+    o = case['other']
+    m = {'zz:pad%03d' % i: 'role:pad%d or role:a' % i for i in range(o['pad'])}
+    for i, n in enumerate(names):            # the compared names come LAST: what is left of this text behind a shorter output still speaks about them
+        m[n] = o['rules'][i % len(o['rules'])]
+    return files.render(m, o['fmt'])
+
+
+def check_place(ctx, case):
+    import sys
+    from oslo_config import cfg
+    from oslo_policy import generator, policy
+    op, f, where = case['op'], case['file'], case['where']
+    ds = build_defaults(policy, case['defaults'])
+    regnames = [d.name for d in ds]
+    cls = place_class(where)
+    tree = files.Tree(dirs=('pd',))
+    cwd = None
+    try:
+        ctx.case(case, nontrivial=any(n in f for n in regnames + OLD_NAMES), stratum='place')
+        ctx.count('output_place_cases')
+        ctx.count('output_place_cases.' + op)
+        ctx.count('output_place_cases.' + (cls or 'fresh'))
+        in_rel = case['in_rel']
+        names = regnames + ['unknown:x'] + (OLD_NAMES if op == 'convert' else [])
+        dirs = ()
+        if op == 'generator':
+            main = {k: v for k, v in f.items() if k in case['in_main']}
+            dirf = {k: v for k, v in f.items() if k not in case['in_main']}
+            tree.write('policy.yaml', main, case['in_fmt'])
+            if dirf or where == 'same-dir-file':
+                tree.write('pd/over.yaml', dirf, case['in_fmt'])
+            dirs = ('pd',)
+        else:
+            tree.write(in_rel, f, case['in_fmt'])
+        # FIRST: what the policy the tool is given decides (the input may be gone afterwards)
+        enf_in = enforcer_on(policy, tree, ds, in_rel, dirs=dirs)
+        t_in = table(enf_in, names)
+        text_in = open(tree.path(in_rel)).read()
+        ext = os.path.splitext(in_rel)[1]
+        target_rel = 'pd/over.yaml' if where == 'same-dir-file' else in_rel       # the input file that is written over
+        in_arg, out, judge_rel = tree.path(in_rel), None, target_rel
+        if where == 'new':
+            judge_rel = 'out' + ext
+            out = tree.path(judge_rel)
+        elif where == 'existing':
+            judge_rel = 'out' + ext
+            out = tree.write_text(judge_rel, other_content(case, names))
+        elif where == 'in-dir':
+            judge_rel = 'pd/' + case['out_name']
+            out = tree.path(judge_rel)
+        elif where == 'stdout':
+            judge_rel = 'out' + ext
+        elif where in ('same', 'same-dir-file'):
+            out = tree.path(target_rel)
+        elif where == 'same-dotted':
+            out = os.path.join(tree.root, 'pd', '..', '.', target_rel)
+        elif where == 'same-relative':
+            cwd = os.getcwd()
+            os.chdir(tree.root)
+            out = target_rel
+        elif where == 'same-symlink-out':
+            out = tree.symlink('link' + ext, target_rel)
+        elif where == 'same-symlink-in':
+            out = tree.path(target_rel)
+            link = tree.symlink('link' + ext, target_rel)
+            if op == 'generator':
+                enf_in = enforcer_on(policy, tree, ds, 'link' + ext, dirs=dirs)     # the service's policy_file is the link
+            else:
+                in_arg = link
+        elif where == 'same-hardlink':
+            out = tree.path('hard' + ext)
+            os.link(tree.path(target_rel), out)
+            tree.stamp(out)
+        else:
+            raise ValueError(where)
+        if op == 'generator' and not case.get('living') and where != 'same-symlink-in':
+            enf_in = enforcer_on(policy, tree, ds, in_rel, dirs=dirs)         # as the entry point hands it over: nothing loaded yet
+        tail = ['--output-file', out] if out else []
+
+        def key(what, names_=(), exc=None):
+            if cls is None:
+                return mechanism(op, f, list(names_), exc)                     # a plain single run of the tool
+            return '%s-output-%s-%s' % (op, cls, what)
+
+        buf = io.StringIO()
+        try:
+            if op == 'generator':
+                with mock.patch('stevedore.named.NamedExtensionManager', return_value=mgr_for({'ns': enf_in})), contextlib.redirect_stdout(buf):
+                    cfg.CONF.reset()
+                    try:
+                        generator.generate_policy(['--namespace', 'ns'] + tail)
+                    finally:
+                        cfg.CONF.reset()
+            else:
+                with mock.patch('stevedore.named.NamedExtensionManager', return_value=mgr_for({'ns': one_shot(ds, case.get('ns_obj'))})), \
+                        contextlib.redirect_stdout(buf):
+                    if op == 'upgrade':
+                        generator.upgrade_policy(['--policy', in_arg, '--namespace', 'ns', '--format', case['out_fmt']] + tail,
+                                                 conf=cfg.ConfigOpts())
+                    else:
+                        generator.convert_policy_json_to_yaml(['--policy-file', in_arg, '--namespace', 'ns'] + tail, conf=cfg.ConfigOpts())
+        except BaseException as e:
+            if isinstance(e, KeyboardInterrupt):
+                raise
+            ctx.violation(key('crashes-' + type(e).__name__, exc=type(e).__name__), case,
+                          {'tool': op, 'where': where, 'file': f, 'observed': '%s: %s' % (type(e).__name__, str(e)[:100])})
+            return
+        finally:
+            if cwd is not None:
+                os.chdir(cwd)
+                cwd = None
+        if out is None:
+            tree.write_text(judge_rel, buf.getvalue())
+        else:
+            tree.stamp(tree.path(judge_rel))
+        text_out = open(tree.path(judge_rel)).read()
+        detail = {'where': where, 'file': f, 'input_text': text_in[:600], 'output': text_out[:600]}
+        # the produced file as a policy file: beside the registered defaults and (generator) on its own; then the operator's
+        # configuration as it stands after the run (produced file + the files the tool had no business changing)
+        judges = [('beside-defaults', judge_rel, (), True)]
+        if op == 'generator':
+            judges += [('alone', judge_rel, (), False), ('configuration-after-run', in_rel, dirs, True)]
+        elif cls != 'in-place':
+            judges += [('input-after-run', in_rel, (), True)]
+        for label, rel, jdirs, with_defaults in judges:
+            try:
+                enf_out = enforcer_on(policy, tree, ds if with_defaults else [], rel, dirs=jdirs)
+                enf_out.load_rules()
+            except Exception as e:
+                ctx.violation(key('output-not-loadable', exc='output-not-loadable'), case,
+                              dict(detail, tool=op, judged=label, observed=type(e).__name__ + ': ' + str(e)[:100]))
+                return
+            t_out = table(enf_out, names)
+            ctx.count('decisions_compared', len(t_in))
+            ctx.count('output_place_decisions_compared', len(t_in))
+            if t_out != t_in:
+                diff = [k for k in t_in if t_in[k] != t_out.get(k)]
+                dn = sorted({k.split('|')[0] for k in diff})
+                excs = sorted({str(t_out[k]) for k in diff if isinstance(t_out.get(k), str)})
+                k_ = ('input-policy-decides-differently-after-tool' if label == 'input-after-run'
+                      else key('changes-decisions', dn, excs[0][4:] if excs else None))
+                ctx.violation(k_, case, dict(detail, tool=op, judged=label, differing_names=dn,
+                                             examples={k: [t_in[k], t_out.get(k)] for k in diff[:4]}))
+                return
+    finally:
+        if cwd is not None:
+            os.chdir(cwd)
+        tree.cleanup()
+
+
 def gen_case(rnd):
     spec = gen_defaults(rnd)
     tool = rnd.choice(['upgrade', 'upgrade', 'convert', 'convert', 'generator', 'generator', 'generator'])
@@ -1034,6 +1223,7 @@ def run(ctx):
     rnd = ctx.rnd
     rrnd = ctx.sub_rnd('repeat', ctx.tier, ctx.shard)
     lrnd = ctx.sub_rnd('long', ctx.tier, ctx.shard)
+    prnd = ctx.sub_rnd('place', ctx.tier, ctx.shard)
     for i in range(N[ctx.tier] // ctx.nshards + 1):
         if ctx.expired():
             break
@@ -1053,9 +1243,16 @@ def run(ctx):
             check_case(ctx, lcase)
             if i % 35 == 2:
                 ctx.sample(lcase, 'long')
+        if i % 4 == 1:
+            # interleaved, own random stream: the output goes over an existing file, over the input itself, into the policy directory
+            pcase = gen_place_case(prnd)
+            check_case(ctx, pcase)
+            if i % 32 == 1:
+                ctx.sample(pcase, 'place')
     ctx.stratum('random', exhaustive=False)
     ctx.stratum('repeat', exhaustive=False)
     ctx.stratum('long', exhaustive=False)
+    ctx.stratum('place', exhaustive=False)
 
 
 def replay(ctx, case):
